@@ -220,14 +220,14 @@ def parseFmt (s : List Char) : Except Err PFmt :=
 /-! ## applying a format -/
 
 def dfltCol (f : Field) : Col :=
-  ⟨f, Option.none, false, Gen.C12.dfltMinWidth, Gen.C12.dfltMaxWidth, Option.none⟩
+  ⟨f, Option.none, false, f.ftype.minW, f.ftype.maxW, Option.none⟩
 
 /-- `ReprColumn(field, modifier, break_by, min_w, max_w)` -/
 def mkCol (f : Field) (p : PCol) (a b : Option Nat) : Except Err Col := do
   verifyModifier f.ftype p.modifier
   .ok ⟨f, p.modifier, p.breakBy,
-       (match a with | some x => x | Option.none => Gen.C12.dfltMinWidth),
-       (match b with | some x => x | Option.none => Gen.C12.dfltMaxWidth), Option.none⟩
+       (match a with | some x => x | Option.none => f.ftype.minW),
+       (match b with | some x => x | Option.none => f.ftype.maxW), Option.none⟩
 
 def findField (fields : List Field) (name : List Char) : Option Field :=
   fields.find? (·.name = name)
@@ -283,10 +283,13 @@ def genTitleLines (title : TitleArg) (name : List Char) : List Val :=
     | .str s => (splitOn '\n' s).map fun l => Val.str (strip l)
     | v => [v]
 
+/-- an element of `fields=[…]`: a name (`pos = none`: the field is `record[<index in the list>]`, type and
+title come from `fields_types` / `fields_titles`), or a ready `RecordField(name, type, pos, title)` -/
 structure FieldSpec where
   name : List Char
   ftype : FType
   title : TitleArg
+  pos : Option Nat := Option.none
   deriving DecidableEq, Repr
 
 structure CtorArgs where
@@ -299,9 +302,17 @@ structure CtorArgs where
   skip : Option (List (List Char))
   deriving DecidableEq, Repr
 
+/-- where in the record the field's value is: the object's own position, or the index in `fields` -/
+def FieldSpec.posAt (s : FieldSpec) (i : Nat) : Nat :=
+  match s.pos with
+  | some p => p
+  | Option.none => i
+
 def mkFields : Nat → List FieldSpec → List Field
   | _, [] => []
-  | pos, s :: ss => ⟨s.name, s.ftype, pos, genTitleLines s.title s.name⟩ :: mkFields (pos + 1) ss
+  | pos, s :: ss =>
+    ⟨s.name, s.ftype, s.posAt pos, genTitleLines s.title s.name⟩
+      :: mkFields (pos + 1) ss
 
 def hasDup : List (List Char) → Bool
   | [] => false
@@ -389,6 +400,36 @@ def mkTableFromFmt (f : Fmt) (records : List Record) (limits : Option (Option In
     | Option.none => Gen.C12.footerPrefix ++ natToDec records.length ++ Gen.C12.footerSuffix
   ⟨records, header, footer, ⟨g.fields, cols, limF, limL, Option.none⟩⟩
 
+/-- a column given as an object: `ReprColumn(field, fmt_modifier, break_by, min_width, max_width)` -/
+structure ColSpec where
+  fieldName : List Char
+  modifier : Option (List Char)
+  breakBy : Bool
+  minW : Nat
+  maxW : Nat
+  deriving DecidableEq, Repr
+
+/-- `[ReprColumn(record_structure.get_field(name), …) for …]`: an unknown name gives `ReprColumn(None, …)`,
+an `AttributeError`; the constructor checks the modifier against the field's type -/
+def directCols (fields : List Field) : List ColSpec → Except Err (List Col)
+  | [] => .ok []
+  | c :: cs =>
+    match findField fields c.fieldName with
+    | Option.none => .error .attributeError
+    | some f => do
+      verifyModifier f.ftype c.modifier
+      let rest ← directCols fields cs
+      .ok (⟨f, c.modifier, c.breakBy, c.minW, c.maxW, Option.none⟩ :: rest)
+
+/-- A table whose format never went through the parser:
+`PPTable(records, fmt_obj=PPTableFormat(ReprStructure(record_structure, [ReprColumn…]), first, last),
+header=…, footer=…)` with the record structure of `fields=…` -/
+def mkTableDirect (a : CtorArgs) (cols : List ColSpec) (lims : Option Int × Option Int) : Except Err Tbl := do
+  let t0 ← mkTable { a with fmt := Option.none, limits := Option.none, skip := Option.none }
+  let cs ← directCols t0.fmt.fields cols
+  .ok (mkTableFromFmt ⟨t0.fmt.fields, cs, lims.1, lims.2, Option.none⟩ a.records Option.none Option.none
+    a.header a.footer)
+
 /-! ## wire format of the drivers (not part of the model proper)
 
 `F- | F n (name D|E… title)*`, `R n (m val*)*`, fmt `none|cps`, `L- | L lim lim`, header, footer
@@ -449,6 +490,16 @@ def ftypeP : P FType := do
         pure (some (k, nm))
       else fail : P (Option (Nat × List Char)))
     pure (.enum ⟨keys, sentinel⟩)
+  else if t = "C" then do
+    let mn ← natTok
+    let mx ← natTok
+    let al ← tok
+    let align ← (if al = "1" then pure Align.left else if al = "2" then pure Align.center
+      else if al = "3" then pure Align.right else fail : P Align)
+    let tag ← cpsTok
+    let nb ← natTok
+    let banned ← many cpsTok nb
+    pure (.custom ⟨mn, mx, align, tag, banned⟩)
   else fail
 
 def titleP : P TitleArg := do
@@ -458,11 +509,19 @@ def titleP : P TitleArg := do
   else if t = "TL" then do let n ← natTok; let vs ← many valTok n; pure (.list vs)
   else fail
 
+/-- `O<pos>` in front of a field: a `RecordField` object with that value position -/
 def fieldP : P FieldSpec := do
-  let name ← cpsTok
+  let t ← tok
+  let (pos, name) ← (if t.startsWith "O" then do
+      let p ← lift (t.drop 1).toString.toNat?
+      let n ← cpsTok
+      pure (some p, n)
+    else do
+      let n ← lift (parseCps t)
+      pure (Option.none, n) : P (Option Nat × List Char))
   let ft ← ftypeP
   let title ← titleP
-  pure ⟨name, ft, title⟩
+  pure ⟨name, ft, title, pos⟩
 
 def limP : P (Option Int) := do
   let t ← tok
@@ -517,6 +576,29 @@ def restP : P Rest := do
 
 def parseRest (toks : List String) : Option Rest :=
   match restP toks with
+  | some (a, []) => some a
+  | _ => Option.none
+
+def colSpecP : P ColSpec := do
+  let name ← cpsTok
+  let m ← optCps
+  let b ← tok
+  let mn ← natTok
+  let mx ← natTok
+  pure ⟨name, m, b = "1", mn, mx⟩
+
+/-- `Q n (name modifier|none brk min max)* lim lim` -/
+def directP : P (List ColSpec × (Option Int × Option Int)) := do
+  let q ← tok
+  if q ≠ "Q" then fail else
+  let n ← natTok
+  let cs ← many colSpecP n
+  let a ← limP
+  let b ← limP
+  pure (cs, (a, b))
+
+def parseDirect (toks : List String) : Option (List ColSpec × (Option Int × Option Int)) :=
+  match directP toks with
   | some (a, []) => some a
   | _ => Option.none
 
